@@ -509,6 +509,39 @@ def close_is_reported_exactly_once(b):
   })
 
 
+def reentrant_close_handler(w):
+  """a close handler that, like a relay's, turns back to the worker it is told about: closes it (again) and sends on it"""
+  w.trace.append("close handler")
+  w.close()
+  w.send_fast(b"late")
+  w.send(b"later")
+
+
+def on_close_rec(w):
+  w.trace.append("on_close")
+
+
+@unit(P, target=IO + "IOWorker.close / RecocoIOWorker.close (close handler re-entering the worker)")
+def a_worker_is_closed_before_its_close_handler_runs(b):
+  """added 2026-09-25 after seeded change C20_9 set `closed` only after the close handler had run: a handler that sends on (or
+  closes) the worker it is being told about then wrote to the socket after its fatal error, and the close was reported twice"""
+  scr = script(b, 1)
+  sock = new_sock(b, scr)
+  pinger = b.raw_new(Pinger, pings=0)
+  w = b.raw_new(RecocoIOWorker, send_buf=b"", socket=sock, closed=False, _connecting=False, _shutdown_send=False,
+                _custom_close_handler=reentrant_close_handler, on_close=on_close_rec, pinger=pinger, trace=b.list([]))
+  cs = {"contracts.c20_send:Sock.send": SockSend(scr)} if b.mode == "sym" else {}
+  def run(w):
+    w.close()
+    return (w.closed, [e for e in w.trace], w.send_buf)
+  return Case(run, [w], calls=cs, raises={}, ensures={
+    "the_close_is_reported_once_to_the_handler_and_once_to_the_loop": lambda res: res[0] is True and res[1] == ["close handler", "on_close"],
+    "nothing_is_written_to_the_socket_of_a_closed_worker":
+      lambda res: sock_calls(b, sock) == 0 and len(wire(b, sock)) == 0,
+  })
+a_worker_is_closed_before_its_close_handler_runs.bound = "one re-entrant handler: close again, send_fast, send"
+
+
 # ---------------------------------------------------------------- "reported closed exactly once" after a fatal send error
 # Connection.send disconnects with the event deferred; the announcement comes from the later close().  That step is
 # the C09 unit below, re-discharged here because C20 states it for the send path.
